@@ -116,8 +116,10 @@ def run(ctx):
                         except Exception as e:
                             py = 'raise:' + type(e).__name__
                         pos = {pi: j for j, pi in enumerate(perm)}
-                        res = sorted(pos[int(n[4:])] for n in srv.results)
-                        err = sorted(pos[int(n[4:])] for n in srv.errors)
+                        # bookkeeping may only name providers of this service (anything else is a stale / invented entry)
+                        name_pos = lambda n: pos[int(n[4:])] if n.startswith('fake') and n[4:].isdigit() and int(n[4:]) in pos else 'foreign:%s' % n
+                        res = sorted((name_pos(n) for n in srv.results), key=str)
+                        err = sorted((name_pos(n) for n in srv.errors), key=str)
                         py += ' results=%s errors=%s' % (str(res), str(err))
                         model_outs = ','.join(to_model(outs[pi], pi) for pi in perm)
                         cases.append(('svc_exec %d %d %s' % (maxp, maxe, model_outs), py, True))
@@ -268,6 +270,8 @@ def run(ctx):
                     real.append('fabricated')
             except ServiceError:
                 real.append('error')
+            except Exception as e:
+                real.append('raise:%s' % type(e).__name__)     # neither an answer nor a ServiceError
         model = run_driver(['svc_hist ' + ';'.join(qlines)])[0].split(' | ')[0].split(';')
         ctx.evals += len(real)
         ctx.traces += 1
